@@ -2,6 +2,7 @@ package h
 
 import (
 	"bytes"
+	"compress/gzip"
 	"context"
 	"crypto/tls"
 	"crypto/x509"
@@ -17,6 +18,7 @@ import (
 	"sync"
 	"time"
 
+	"github.com/golang/snappy"
 	"github.com/sassoftware/relic/v8/cmdline/shared"
 	"github.com/sassoftware/relic/v8/config"
 	"github.com/sassoftware/relic/v8/signers"
@@ -138,12 +140,20 @@ type reqSpec struct {
 	// OnFirstByte is called when the first response body byte of a 2xx answer
 	// is about to be written.
 	OnFirstByte func(status int)
+	// AcceptEncoding, when set, is what the caller says it accepts; a
+	// response that comes back encoded is decoded (gzip by the standard
+	// library, the framed snappy format by the snappy package) and a body
+	// that does not decode is reported in respRec.DecodeErr.
+	AcceptEncoding string
 }
 
 type respRec struct {
-	Code   int
-	Header http.Header
-	Body   []byte
+	// DecodeErr is set when the response body does not decode in the content
+	// encoding the response declares.
+	DecodeErr string
+	Code      int
+	Header    http.Header
+	Body      []byte
 }
 
 type hookWriter struct {
@@ -159,6 +169,9 @@ func (h *hookWriter) Write(b []byte) (int, error) {
 			h.cb(h.ResponseRecorder.Code)
 		}
 	}
+	// a write to the connection is a scheduling point: other requests run
+	// between two writes of one response (gzip header, data, trailer ...)
+	simhook.Yield("net:response-write")
 	return h.ResponseRecorder.Write(b)
 }
 
@@ -215,6 +228,9 @@ func serve(h http.Handler, rs reqSpec) *respRec {
 	for k, v := range rs.Header {
 		req.Header[k] = v
 	}
+	if rs.AcceptEncoding != "" {
+		req.Header.Set("Accept-Encoding", rs.AcceptEncoding)
+	}
 	if rs.Timeout > 0 {
 		ctx, cancel := context.WithTimeout(req.Context(), rs.Timeout)
 		defer cancel()
@@ -226,7 +242,30 @@ func serve(h http.Handler, rs reqSpec) *respRec {
 	// the handler may have been woken by timers, contexts or peer goroutines:
 	// re-enter the schedule before the caller touches the tape again
 	simhook.Yield("net:response")
-	return &respRec{Code: rec.Code, Header: rec.Result().Header, Body: rec.Body.Bytes()}
+	out := &respRec{Code: rec.Code, Header: rec.Result().Header, Body: rec.Body.Bytes()}
+	if rs.AcceptEncoding != "" {
+		var zr io.Reader
+		var err error
+		switch ce := out.Header.Get("Content-Encoding"); ce {
+		case "", "identity":
+		case "gzip":
+			zr, err = gzip.NewReader(bytes.NewReader(out.Body))
+		case "x-snappy-framed":
+			zr = snappy.NewReader(bytes.NewReader(out.Body))
+		default:
+			err = fmt.Errorf("unknown content encoding %q", ce)
+		}
+		if zr != nil && err == nil {
+			var plain []byte
+			if plain, err = io.ReadAll(zr); err == nil {
+				out.Body = plain
+			}
+		}
+		if err != nil {
+			out.DecodeErr = err.Error()
+		}
+	}
+	return out
 }
 
 // ---- client-side application and verification of a signing response ----
